@@ -5257,12 +5257,16 @@ func readWithRuns(b *Bitmap, data []byte, pos int, keyN uint32) error {
 		switch c.typ() {
 		case containerRun:
 			runCount := binary.LittleEndian.Uint16(data[pos : pos+runCountHeaderSize])
-			c.setRuns((*[0xFFFFFFF]interval16)(unsafe.Pointer(&data[pos+runCountHeaderSize]))[:runCount:runCount])
-			runs := c.runs()
-
-			for o := range runs { // must convert from start:length to start:end :(
+			// must convert from start:length to start:end :( -- on a copy:
+			// data belongs to the caller (it may be a read-only mapping, or
+			// be decoded, imported or logged again) and must stay unmodified.
+			runs := make([]interval16, runCount)
+			copy(runs, (*[0xFFFFFFF]interval16)(unsafe.Pointer(&data[pos+runCountHeaderSize]))[:runCount:runCount])
+			for o := range runs {
 				runs[o].last = runs[o].start + runs[o].last
 			}
+			c.setMapped(false)
+			c.setRuns(runs)
 			pos += int((runCount * interval16Size) + runCountHeaderSize)
 		case containerArray:
 			c.setArray((*[0xFFFFFFF]uint16)(unsafe.Pointer(&data[pos]))[:c.N():c.N()])
